@@ -205,6 +205,50 @@ func regNew(prog *load.Program, specs []importSpec, moqPkg string, typesPkg *int
 	return &regWorld{prog: prog, m: m, reg: reg}, got, nil
 }
 
+// conflictTerminationTable (G-PANIC/conflict-table, C19): import sets whose conflict resolution once ran
+// away (D12: two paths that sanitise to the same name at every level; a user package named like a
+// one-element standard path registered before it) or meets names held inside the pair (D15, D16), registered
+// through AddImport interpreted from source: every registration must return. The interpreter gives up on a
+// call depth no terminating resolution of these sets comes near, which is reported as undecided.
+func conflictTerminationTable(c *Ctx) {
+	run, prog := c.Run, c.Prog
+	pos := "internal/registry/registry.go"
+	if fn := prog.LookupFunc(load.PkgRegistry, "Registry.AddImport"); fn != nil {
+		pos = prog.Pos(fn.Pos())
+	}
+	type step struct{ path, name string }
+	cases := []struct {
+		key   string
+		specs []importSpec
+		steps []step
+	}{
+		{"same-sanitised-paths", nil, []step{{"example.com/m/x/foo-bar", "foobar"}, {"example.com/m/x/foobar", "foobar"}}},
+		{"user-package-named-like-a-standard-path", nil, []step{{"example.com/m/sync", "sync"}, {"sync", "sync"}}},
+		{"standard-path-first", nil, []step{{"sync", "sync"}, {"example.com/m/sync", "sync"}}},
+		{"alias-held-by-partner", []importSpec{{"xfoo", false, "example.com/m/yfoo/x/foo"}}, []step{{"example.com/m/yfoo/x/foo", "foo"}, {"example.com/m/yfoo/q/foo", "foo"}, {"example.com/m/y/xfoo", "xfoo"}}},
+		{"name-given-to-the-new-import", nil, []step{{"example.com/m/foo-bar", "sync"}, {"example.com/m/xfoo/foo_bar", "foobar"}, {"example.com/m/sync", "foo"}, {"example.com/m/foobar", "foo"}}},
+	}
+	for _, tc := range cases {
+		w, err := newRegWorld(prog, tc.specs, "")
+		for _, s := range tc.steps {
+			if err != nil {
+				break
+			}
+			_, err = w.addImport(s.path, s.name)
+		}
+		if err == nil {
+			run.Check("G-PANIC/conflict-table", tc.key, pos, true, "")
+			continue
+		}
+		p := pos
+		if u, ok := err.(*interp.ErrUndecided); ok && u.Pos.IsValid() {
+			p = prog.Pos(u.Pos)
+		}
+		run.Undecided("G-PANIC/conflict-table", tc.key, p, "registering the imports of scenario "+tc.key+" does not come to an end in the interpretation of AddImport: "+err.Error())
+	}
+	run.Floor("G-PANIC/conflict-table", 5)
+}
+
 // loadErrorsTable (G-LOAD/errors-fatal): a source package that was loaded with errors — one or several —
 // or a directory that holds no package or more than one makes registry.New fail; nothing is generated from
 // a package the compiler front end rejected.
@@ -535,6 +579,20 @@ func importTables(c *Ctx) {
 	scenario("three-way-conflict", nil, "", []step{{"a.test/x/dep", "dep"}, {"b.test/y/dep", "dep"}, {"c.test/x/dep", "dep"}}, func(w *regWorld, r []interp.Value) (bool, string) {
 		ok, all := distinctQualifiers(w)
 		return ok && len(importsOf(w).Keys) == 3, "three packages named dep: " + all + "; want three imports with pairwise distinct qualifiers"
+	})
+	// conflicts whose resolution meets a name that is held inside the pair or by the import being added
+	// (witnesses found in round 6 with the real binary on scratch modules, DESIGN §6 D15/D16)
+	scenario("alias-held-by-partner", []importSpec{{"xfoo", false, "example.com/m/yfoo/x/foo"}}, "", []step{{"example.com/m/yfoo/x/foo", "foo"}, {"example.com/m/yfoo/q/foo", "foo"}, {"example.com/m/y/xfoo", "xfoo"}}, func(w *regWorld, r []interp.Value) (bool, string) {
+		ok, all := distinctQualifiers(w)
+		return ok && len(importsOf(w).Keys) == 3, "a package the source imports as xfoo, a second package of its name, then a package named xfoo: " + all + "; want three imports with pairwise distinct qualifiers (a name taken from the other package of a conflicting pair is only free once that package has really been renamed)"
+	})
+	scenario("alias-held-by-partner-2", []importSpec{{"xfoo", false, "example.com/m/x/foo"}}, "", []step{{"example.com/m/x/xyfoo", "foo"}, {"example.com/m/x/foo", "sync"}, {"example.com/m/y/foo-bar/xfoo", "xfoo"}}, func(w *regWorld, r []interp.Value) (bool, string) {
+		ok, all := distinctQualifiers(w)
+		return ok && len(importsOf(w).Keys) == 3, "a package named foo, a package the source imports as xfoo whose path ends in foo, then a package named xfoo: " + all + "; want three imports with pairwise distinct qualifiers"
+	})
+	scenario("name-given-to-the-new-import", nil, "", []step{{"example.com/m/foo-bar", "sync"}, {"example.com/m/xfoo/foo_bar", "foobar"}, {"example.com/m/sync", "foo"}, {"example.com/m/foobar", "foo"}}, func(w *regWorld, r []interp.Value) (bool, string) {
+		ok, all := distinctQualifiers(w)
+		return ok && len(importsOf(w).Keys) == 4, "packages m/foo-bar (named sync), m/xfoo/foo_bar (foobar), m/sync (foo), then m/foobar (foo): " + all + "; want four imports with pairwise distinct qualifiers (while the conflicts of a new import are being resolved it is not yet among the imports the search sees, so a name just given to it can be given again)"
 	})
 	searchLiveTable(c)
 	run.Floor("G-IMPORT/table", 9)
